@@ -13,7 +13,7 @@ LEVEL = 'proof'
 
 
 def make_case(rng):
-    prog = progs.gen_program(rng, twins=rng.chance(1, 2))
+    prog = progs.gen_program(rng, twins=rng.chance(1, 2), opts={'snaps': True})
     names = [n for (_f, n, _k) in prog['funcs']]
     steps = []
     nsteps = rng.below(10) + 4
@@ -42,7 +42,7 @@ def make_case(rng):
 
 def strip_snapshots(case):
     st = [s for s in case['steps'][:-1] if s[0] != 'snapshot'] + [['snapshot']]
-    return {'prog': case['prog'], 'steps': st, 'time': True}
+    return {'prog': case['prog'], 'steps': st, 'time': True, 'inner_snaps': False}
 
 
 def spans(case):
